@@ -1,6 +1,11 @@
 # ./check configuration for C01 (merged by mc/props.py)
 PROP = dict(
-    pkg=".", test="TestVerifC01", files=["mc/c01/*.go"], libs=["explore", "canon", "sim", "wiremon"],
+    libs=["explore", "canon", "sim", "wiremon"],
+    targets=[
+        dict(name="e2", pkg=".", test="TestVerifC01", files=["mc/c01/*.go"], parts=["k1-all-datagrams", "k2-first-datagrams", "k3-first-datagrams", "wire-monitor-selftest"]),
+        dict(name="race", pkg=".", test="TestVerifC01Race", files=["mc/c01/*.go", "mc/c01/race/*.go"], parts=["race-pass"],
+             race=True, shards=4, gomaxprocs=4, env={"GORACE": "halt_on_error=1", "GODEBUG": "randseednop=0"}),
+    ],
     engine="E2 simx", level="fault_enumeration", shards="ncpu", gomaxprocs=1,
     env={"GODEBUG": "randseednop=0,asyncpreemptoff=1"},
     deterministic=False, crash_is_violation=True,
